@@ -88,7 +88,7 @@ def const_src(v) -> str:
         return str_lit(v)
     if isinstance(v, float):
         r = repr(v)
-        if "e" in r or "E" in r or "inf" in r or "nan" in r:
+        if "inf" in r or "nan" in r:
             raise ValueError("float literal not printable")
         return r
     if isinstance(v, int):
@@ -186,9 +186,9 @@ def _pe(e):
     raise ValueError(f"unknown expr {k}")
 
 
-def pe_root(e) -> str:
+def pe_root(e, ctx=P_COND) -> str:
     """Expression printed as the whole content of a tag (nothing follows)."""
-    s = pe(e)
+    s = pe(e, ctx)
     if e[0] == "test":
         return s[1:-1]
     return s
@@ -219,7 +219,7 @@ def ps(body, sx: Syntax = DEFAULT) -> str:
             out.append(f"{sx.vs} {pe_root(st[1])} {sx.ve}")
         elif k == "if":
             for i, (c, b) in enumerate(st[1]):
-                out.append(B(("if " if i == 0 else "elif ") + pe_root(c)))
+                out.append(B(("if " if i == 0 else "elif ") + pe_root(c, P_OR)))
                 out.append(ps(b, sx))
             if st[2] is not None:
                 out.append(B("else"))
